@@ -77,6 +77,55 @@ Fixpoint solo (n : nat) (d : db) (i : inst) (log : list call) : db * inst * list
            end
   end.
 
+(* ------------------------------------------------------------------ connection faults inside concurrent runs
+   A statement of an instance may fail (having taken effect or not); the instance's Rotate then returns the error and
+   issues nothing more ("dead").  Events: the instance that is granted its next statement, or whose next statement fails. *)
+Inductive sev := SStep (k : nat) | SFail (k : nat) (eff : bool).
+Definition sev_inst (e : sev) : nat := match e with SStep k => k | SFail k _ => k end.
+Record fsys := { f_sys : sys; f_dead : list nat; f_log : list (nat * call * bool) }.   (* log: newest first *)
+
+Definition is_dead (dead : list nat) (k : nat) : bool := existsb (Nat.eqb k) dead.
+Definition next_call (s : sys) (k : nat) : option call :=
+  match nth_error (s_insts s) k with
+  | None => None
+  | Some i => match step (s_db s) i with Some (c, _, _) => Some c | None => None end
+  end.
+Definition fsched_step (s : fsys) (e : sev) : fsys :=
+  let k := sev_inst e in
+  if is_dead (f_dead s) k then s else
+  match next_call (f_sys s) k with
+  | None => s                                        (* the instance has finished (or does not exist): nothing to fail *)
+  | Some c =>
+    match e with
+    | SStep _ => {| f_sys := sched_step (f_sys s) k; f_dead := f_dead s; f_log := (k, c, true) :: f_log s |}
+    | SFail _ eff => {| f_sys := if eff then sched_step (f_sys s) k else f_sys s; f_dead := k :: f_dead s;
+                        f_log := (k, c, false) :: f_log s |}
+    end
+  end.
+Definition fsched_run (evs : list sev) (s : fsys) : fsys := fold_left fsched_step evs s.
+Definition finit (d : db) (cfgs : list config) : fsys := {| f_sys := init_sys d cfgs; f_dead := []; f_log := [] |}.
+
+(* the fault-free schedule that does the same to the database and the instances: a failed statement that took effect
+   is a statement after which the instance is never scheduled again, one that did not is no statement *)
+Fixpoint effective (evs : list sev) (s : fsys) : list nat :=
+  match evs with
+  | [] => []
+  | e :: r =>
+    let k := sev_inst e in
+    let s' := fsched_step s e in
+    if is_dead (f_dead s) k then effective r s' else
+    match next_call (f_sys s) k, e with
+    | None, _ => effective r s'
+    | Some _, SStep _ => k :: effective r s'
+    | Some _, SFail _ true => k :: effective r s'
+    | Some _, SFail _ false => effective r s'
+    end
+  end.
+
+Definition render_fconc (cfgs : list config) (e : nat * call * bool) : nat * ocall :=
+  (fst (fst e), render (nth (fst (fst e)) cfgs {| cluster := ""; distributed := false; days := []; drop_days := 0; storage_policy := "" |})
+                       (snd (fst e), snd e)).
+
 (* rendered entry of the interleaved log, for the comparison with the implementation *)
 Definition render_conc (cfgs : list config) (e : nat * call) : nat * ocall :=
   (fst e, render (nth (fst e) cfgs {| cluster := ""; distributed := false; days := []; drop_days := 0; storage_policy := "" |})
